@@ -25,6 +25,8 @@ def cases_for(pid):
                 out.append((c["name"], os.path.join(VERIF, "mutants", c["patch"]), c["expect"][pid]))
     for m in sorted(glob.glob(os.path.join(VERIF, "seeded", "*", "meta.json"))):
         j = json.load(open(m))
+        if j.get("retired"):
+            continue
         cb = j.get("caught_by") or {}
         if pid in cb:
             out.append(("seeded/" + os.path.basename(os.path.dirname(m)), os.path.join(os.path.dirname(m), "patch.diff"), cb[pid]))
